@@ -807,6 +807,48 @@ fn sort<T: RealNumber, M: BaseMatrix<T>>(d: &mut [T], e: &mut [T], V: &mut M) {
     }
 }
 
+/// Verification hooks (cfg `smartcore_verif` only): public wrappers around the private stages of
+/// the eigen-solvers, so that each stage can be run and observed on its own.
+#[cfg(smartcore_verif)]
+pub fn verif_tred2<T: RealNumber, M: BaseMatrix<T>>(V: &mut M, d: &mut [T], e: &mut [T]) {
+    tred2(V, d, e)
+}
+/// Verification hook (cfg `smartcore_verif` only).
+#[cfg(smartcore_verif)]
+pub fn verif_tql2<T: RealNumber, M: BaseMatrix<T>>(V: &mut M, d: &mut [T], e: &mut [T]) {
+    tql2(V, d, e)
+}
+/// Verification hook (cfg `smartcore_verif` only).
+#[cfg(smartcore_verif)]
+pub fn verif_balance<T: RealNumber, M: BaseMatrix<T>>(A: &mut M) -> Vec<T> {
+    balance(A)
+}
+/// Verification hook (cfg `smartcore_verif` only).
+#[cfg(smartcore_verif)]
+pub fn verif_elmhes<T: RealNumber, M: BaseMatrix<T>>(A: &mut M) -> Vec<usize> {
+    elmhes(A)
+}
+/// Verification hook (cfg `smartcore_verif` only).
+#[cfg(smartcore_verif)]
+pub fn verif_eltran<T: RealNumber, M: BaseMatrix<T>>(A: &M, V: &mut M, perm: &[usize]) {
+    eltran(A, V, perm)
+}
+/// Verification hook (cfg `smartcore_verif` only).
+#[cfg(smartcore_verif)]
+pub fn verif_hqr2<T: RealNumber, M: BaseMatrix<T>>(A: &mut M, V: &mut M, d: &mut [T], e: &mut [T]) {
+    hqr2(A, V, d, e)
+}
+/// Verification hook (cfg `smartcore_verif` only).
+#[cfg(smartcore_verif)]
+pub fn verif_balbak<T: RealNumber, M: BaseMatrix<T>>(V: &mut M, scale: &[T]) {
+    balbak(V, scale)
+}
+/// Verification hook (cfg `smartcore_verif` only).
+#[cfg(smartcore_verif)]
+pub fn verif_sort<T: RealNumber, M: BaseMatrix<T>>(d: &mut [T], e: &mut [T], V: &mut M) {
+    sort(d, e, V)
+}
+
 #[cfg(test)]
 mod tests {
     use super::*;
